@@ -132,3 +132,55 @@ contract(
     ),
     note='sink attached, nothing queued (the HFP set-up); DLC.process_tx through its C20 contract',
 )
+
+
+# ---------------------------------------------------------------------------
+# LeCreditBasedChannel.on_pdu when the sink raises.  On an enhanced ATT bearer the sink is
+# `lambda pdu: server.on_gatt_pdu(channel, ATT_PDU.from_bytes(pdu))` (gatt_server.py) / `client.on_gatt_pdu(ATT_PDU.from_bytes(pdu))`
+# (gatt_client.py): by part 2 it raises struct.error / IndexError / InvalidPacketError on a malformed ATT PDU.  K-frames carry no
+# start marker, so unlike the ACL assembler nothing re-synchronises a stale buffer: S = the reassembly state is clean
+# after a delivery, also when the delivery raised.
+# ---------------------------------------------------------------------------
+from contracts import c07_coc as _c07  # noqa: E402
+from spec.coc import rs_complete  # noqa: E402
+
+
+def coc_sink_or_fail(ghost, sdu):
+    ghost.sunk = ghost.sunk + sdu
+    ghost.last = sdu
+    ghost.nsdu = ghost.nsdu + 1
+    if ghost.sink_fails:
+        raise SinkFailure()
+
+
+_chan = _REG.models['bumble.l2cap:LeCreditBasedChannel']
+model('bumble.l2cap:LeCreditBasedChannel#17', fields=dict(_chan.fields, sink=Callback('sink', effect=coc_sink_or_fail, raises=(SinkFailure,))), methods=dict(_chan.methods))
+
+
+def coc_after_failure(self, pdu, old, ghost):
+    b = _c07.rx_buf(old.self) + pdu
+    return _c07.wf_rx(self) + [
+        rs_complete(b) and ghost.nsdu == old.ghost.nsdu + 1,
+        # clean: the next K-frame starts a new SDU
+        self.in_sdu is None and self.in_sdu_length == 0,
+        _c07.wf_ledger(self),
+    ]
+
+
+contract(
+    'bumble.l2cap:LeCreditBasedChannel.on_pdu',
+    key='bumble.l2cap:LeCreditBasedChannel.on_pdu@raising-sink',
+    prop=PROP,
+    params=dict(self=Inst('bumble.l2cap:LeCreditBasedChannel#17'), pdu=Bytes),
+    ghost=dict(_c07.RX_GHOST, sink_fails=Bool),
+    requires=lambda self, pdu: [_c07.wf_rx(self), _c07.wf_ledger(self), self.peer_max_credits <= 65535,
+                                # (SDU length 0 is the subject of on_pdu@any-frame / fix-2)
+                                implies(len(_c07.rx_buf(self) + pdu) >= 2, le16(_c07.rx_buf(self) + pdu) >= 1)],
+    ensures=_c07.on_pdu_post,
+    ensures_names=_c07.ON_PDU_NAMES,
+    raises={SinkFailure: coc_after_failure},
+    modifies=['self.in_sdu', 'self.in_sdu_length', 'self.peer_credits', 'ghost.sunk', 'ghost.nsdu', 'ghost.last', 'ghost.cr_frames', 'ghost.cr_total', 'ghost.cr_cid',
+              'ghost.cr_last'],
+    inline=['L2CAP_Control_Frame.*', 'LeCreditBasedChannel.send_control_frame', 'L2CAP_LE_Flow_Control_Credit.*'],
+    note='C07 contract with a sink that may raise',
+)
